@@ -58,10 +58,12 @@ pub struct LockStep {
     /// boundaries between commands: whatever a terminal remembers "until the end of the call"
     /// stays remembered)
     pub via_feed: bool,
-    /// keep a twin terminal that gets every multi-command op (`Seq`) in ONE `feed_str` call
-    /// while the compared terminal gets one call per command; after every op the two must
-    /// agree (screen, cursor, dump, hidden state) - so the reference model's verdict on the
-    /// per-command run carries over to the run without call boundaries
+    /// keep twin terminals (unlimited configurations only) that get the same history with
+    /// fewer call boundaries - one gets every multi-command op (`Seq`) in ONE `feed_str` call,
+    /// two get the ops two per call (even and odd phase) - while the compared terminal gets
+    /// one call per command; whenever a twin has been given everything, it must agree (screen,
+    /// cursor, dump, hidden state) - so the reference model's verdict on the per-command run
+    /// carries over to runs without those call boundaries
     pub merged: bool,
 }
 
@@ -69,7 +71,7 @@ pub struct LSt {
     pub vt: Vt,
     pub model: RefTerm,
     pub dead: bool,
-    pub twin: Option<Vt>,
+    pub twins: Vec<Twin>,
 }
 
 fn flatten(cmd: &Cmd, out: &mut Vec<Cmd>) {
@@ -102,28 +104,59 @@ pub fn lock_apply(st: &mut LSt, op: &Op) -> Outcome {
     lock_apply_via(st, op, false)
 }
 
+pub struct Twin {
+    pub vt: Vt,
+    /// text of the ops not yet delivered, and how many ops it holds
+    pending: String,
+    held: usize,
+    /// deliver when this many ops are held (1 = every op in its own call, multi-command ops
+    /// in one; 2 = ops in pairs)
+    every: usize,
+    /// the first delivery of the "pairs" twin with the odd phase happens after one op
+    first: usize,
+}
+
+impl Twin {
+    fn new(cfg: &Cfg, every: usize, first: usize) -> Twin {
+        Twin { vt: build_vt(cfg.cols, cfg.rows, cfg.limit), pending: String::new(), held: 0, every, first }
+    }
+    fn flush(&mut self) {
+        if self.held > 0 {
+            let _ = self.vt.feed_str(&self.pending).scrollback.count();
+            self.pending.clear();
+            self.held = 0;
+            self.first = self.every;
+        }
+    }
+}
+
 pub fn lock_apply_via(st: &mut LSt, op: &Op, via_feed: bool) -> Outcome {
-    if st.twin.is_none() {
+    if st.twins.is_empty() {
         return lock_apply_split(st, op, via_feed);
     }
     let mut parts = vec![];
     flatten(&op.cmd, &mut parts);
-    {
-        let tw = st.twin.as_mut().unwrap();
-        if parts.len() > 1 && !parts.iter().any(|p| matches!(p, Resize(..))) {
-            let text: String = parts.iter().map(|p| p.spell(SP7)).collect();
-            let _ = tw.feed_str(&text).scrollback.count();
-        } else {
-            for p in &parts {
-                match p {
-                    Resize(c, r) => {
-                        let _ = tw.resize(*c, *r).scrollback.count();
+    for tw in st.twins.iter_mut() {
+        let mut text = String::new();
+        for p in &parts {
+            match p {
+                Resize(c, r) => {
+                    if !text.is_empty() {
+                        tw.pending.push_str(&text);
+                        tw.held += 1;
+                        text.clear();
                     }
-                    p => {
-                        let text = if parts.len() == 1 { op.text.clone() } else { p.spell(SP7) };
-                        let _ = tw.feed_str(&text).scrollback.count();
-                    }
+                    tw.flush();
+                    let _ = tw.vt.resize(*c, *r).scrollback.count();
                 }
+                p => text.push_str(&if parts.len() == 1 { op.text.clone() } else { p.spell(SP7) }),
+            }
+        }
+        if !text.is_empty() || parts.iter().all(|p| !matches!(p, Resize(..))) {
+            tw.pending.push_str(&text);
+            tw.held += 1;
+            if tw.held >= tw.first {
+                tw.flush();
             }
         }
     }
@@ -131,21 +164,26 @@ pub fn lock_apply_via(st: &mut LSt, op: &Op, via_feed: bool) -> Outcome {
         Outcome::Ok => {}
         other => return other,
     }
-    let tw = st.twin.as_ref().unwrap();
-    let (a, b) = (obs_full(&st.vt), obs_full(tw));
-    if a != b {
-        return Outcome::Mismatch(
-            op.cmd.clone(),
-            format!("delivered in one call: cursor {:?} rows {:?}; one call per command: cursor {:?} rows {:?}", b.cursor, b.rows, a.cursor, a.rows),
-        );
-    }
-    let (da, db) = (st.vt.dump(), tw.dump());
-    if da != db {
-        return Outcome::Mismatch(op.cmd.clone(), format!("delivered in one call: dump {}; one call per command: dump {}", crate::ops::esc(&db), crate::ops::esc(&da)));
-    }
-    let (ha, hb) = (format!("{:?}", st.vt.verif_state()), format!("{:?}", tw.verif_state()));
-    if ha != hb {
-        return Outcome::Mismatch(op.cmd.clone(), format!("delivered in one call: hidden state {}; one call per command: {}", hb, ha));
+    for tw in st.twins.iter() {
+        if tw.held > 0 {
+            continue;
+        }
+        let how = if tw.every == 1 { "each multi-command op delivered in one call" } else { "the ops delivered two per call" };
+        let (a, b) = (obs_full(&st.vt), obs_full(&tw.vt));
+        if a != b {
+            return Outcome::Mismatch(
+                op.cmd.clone(),
+                format!("delivered in one call ({}): cursor {:?} rows {:?}; one call per command: cursor {:?} rows {:?}", how, b.cursor, b.rows, a.cursor, a.rows),
+            );
+        }
+        let (da, db) = (st.vt.dump(), tw.vt.dump());
+        if da != db {
+            return Outcome::Mismatch(op.cmd.clone(), format!("delivered in one call ({}): dump {}; one call per command: dump {}", how, crate::ops::esc(&db), crate::ops::esc(&da)));
+        }
+        let (ha, hb) = (format!("{:?}", st.vt.verif_state()), format!("{:?}", tw.vt.verif_state()));
+        if ha != hb {
+            return Outcome::Mismatch(op.cmd.clone(), format!("delivered in one call ({}): hidden state {}; one call per command: {}", how, hb, ha));
+        }
     }
     Outcome::Ok
 }
@@ -295,9 +333,9 @@ impl System for LockStep {
             vt: build_vt(cfg.cols, cfg.rows, cfg.limit),
             model: RefTerm::new(cfg.cols, cfg.rows),
             dead: false,
-            twin: if self.merged { Some(build_vt(cfg.cols, cfg.rows, cfg.limit)) } else { None },
+            twins: if self.merged && cfg.limit.is_none() { vec![Twin::new(cfg, 1, 1), Twin::new(cfg, 2, 2), Twin::new(cfg, 2, 1)] } else { vec![] },
         };
-        assert!(!(self.merged && self.seed.is_some()), "merged-call twin is not fed the seed");
+        assert!(!(self.merged && (self.seed.is_some() || self.via_feed)), "merged-call twins are not fed the seed, and need calls");
         match cfg.limit {
             None => {}
             Some(0) => st.model.no_scrollback = true,
